@@ -3,6 +3,7 @@
 package spynode
 
 import (
+	"sync/atomic"
 	"fmt"
 	"testing"
 	"time"
@@ -56,8 +57,9 @@ func TestVerif_C01L1(t *testing.T) {
 		startHash := tip.Ancestor(start).Hash
 		log := newEventLog()
 		// online in-sync check, causal form: every block of the peer's best chain for which the
-		// peer had received getdata when HandleInSync is called must have been announced before
-		inSyncViolations := 0
+		// peer had received getdata when HandleInSync is called must be held by the node
+		var inSyncViolations int32
+		var curEnv atomic.Pointer[l1Env]
 		log.onEvent = func(ev recEvent) {
 			if ev.Kind != "insync" || ev.Handler != 0 {
 				return
@@ -69,19 +71,21 @@ func TestVerif_C01L1(t *testing.T) {
 				got[h] = true
 			}
 			peer.mu.Unlock()
-			announced := map[bitcoin.Hash32]bool{}
-			for _, e2 := range log.snapshot() {
-				if e2.Kind == "headers" && e2.Handler == 0 {
-					announced[*e2.Header.BlockHash()] = true
-				}
+			// "holds": in its block repository (the same rule as in the DS engine; a node whose
+			// start block was reorganised away across a restart stores headers only - DESIGN #22)
+			cur := curEnv.Load()
+			if cur == nil {
+				return
 			}
 			for h := range got {
-				if b := tree.Get(h); b != nil && b.IsAncestorOf(ptip) && !announced[h] {
-					inSyncViolations++
+				h := h
+				if b := tree.Get(h); b != nil && b.IsAncestorOf(ptip) && !cur.node.blocks.Contains(&h) {
+					atomic.AddInt32(&inSyncViolations, 1)
 				}
 			}
 		}
 		e := newL1(peer, peer.addr(), store, startHash, nil, nil, log)
+		curEnv.Store(e)
 		e.run()
 		fp := fmt.Sprintf("i%d", initial/1000)
 		stalled := ""
@@ -140,6 +144,7 @@ func TestVerif_C01L1(t *testing.T) {
 				}
 				log.stopped = 0
 				e = newL1(peer, peer.addr(), store, startHash, nil, nil, log)
+				curEnv.Store(e)
 				e.run()
 				fp += "S"
 			}
@@ -155,8 +160,8 @@ func TestVerif_C01L1(t *testing.T) {
 		if !ok && stalled != "" {
 			rep.Finding(ci, "C01/L1/stall", "real Node.Run over TCP: "+stalled+" | steps "+fp, map[string]interface{}{"steps": fp, "callbacks": log.strings(0), "wire": peer.wireLog()})
 		}
-		if inSyncViolations > 0 {
-			rep.Finding(ci, "C01/L1/insync-before-requested-block-announced", fmt.Sprintf("HandleInSync was delivered while %d block(s) the node had already requested from the peer had not been announced to the handlers", inSyncViolations), map[string]interface{}{"steps": fp, "callbacks": log.strings(0)})
+		if atomic.LoadInt32(&inSyncViolations) > 0 {
+			rep.Finding(ci, "C01/L1/insync-before-requested-block-announced", fmt.Sprintf("HandleInSync was delivered while %d block(s) the node had already requested from the peer are not in its block repository", atomic.LoadInt32(&inSyncViolations)), map[string]interface{}{"steps": fp, "callbacks": log.strings(0), "wire": peer.wireLog()})
 		}
 		e.stop(12 * time.Second)
 		peer.shutdown()
